@@ -46,9 +46,13 @@ ARGSETS = {
     "I": dict(pi_method="nonparametric", estimands=["turnout"], alphas=[0.7], aggregates=["postal_code", "unit"], features=[], model_parameters={}, omit_params=True),
     # J: gaussian with the seed setting 0 (the bootstrap model's own default, a falsy value)
     "J": dict(pi_method="gaussian", estimands=["turnout"], alphas=[0.7, 0.9], aggregates=["postal_code", "county_classification", "unit"], features=[], model_parameters={"seed": 0}),
+    # L, M: the size ladder - precinct level elections of 1 300 and 6 100 units with heavy-tailed turnout changes and the
+    # outlier models at their public defaults (size is an input dimension too: the library has thresholds on unit counts)
+    "L": dict(pi_method="nonparametric", estimands=["turnout"], alphas=[0.7], aggregates=["postal_code", "unit"], features=[], model_parameters={"fit_margin_outlier_model": True, "fit_turnout_outlier_model": True}, large=1300),
+    "M": dict(pi_method="nonparametric", estimands=["turnout"], alphas=[0.7], aggregates=["postal_code", "unit"], features=[], model_parameters={"fit_margin_outlier_model": True, "fit_turnout_outlier_model": True}, large=6100),
 }
 # argument sets that are not BFS operations get a fixed family of short histories instead (kind 'offbfs')
-OFF_BFS = ["E", "G", "H", "I", "J"]
+OFF_BFS = ["E", "G", "H", "I", "J", "L", "M"]
 
 
 def bounds(tier):
@@ -110,7 +114,7 @@ def make_args(seed):
     cfg0 = E.make_cfg()
     baseline, feed = E.frames(units, cfg0)
     raw = E.raw_config(cfg0)
-    args = {"baseline": baseline, "feed": feed, "raw_config": raw}
+    args = {"baseline": baseline, "feed": feed, "raw_config": raw, "seed": seed}
     # a larger single-state election (60 reporting units, 18 calibration units) for argument set E: with a handful of
     # calibration units a bootstrapped scale takes so few distinct values that it hides which random stream was used
     big = E.background(seed + 1, "G", 66, "AA2", partial=6)
@@ -124,8 +128,32 @@ def make_args(seed):
     return args
 
 
+_LARGE = {}
+
+
+def large_election(seed, n):
+    """n reporting precincts in two states whose turnout change has heavy tails (a dense set of units near any outlier
+    threshold), plus 40 outstanding ones; built once per process, handed out as copies"""
+    import random
+
+    if (seed, n) not in _LARGE:
+        units = E.background(seed + 7, "G", n + 40, "AABB", partial=40)
+        rng = random.Random(seed * 7919 + n)
+        for u in units:
+            if u["pev"] >= 100:
+                f = min(1.9, max(0.55, 1.0 + 0.06 * rng.gauss(0, 1) / max(0.25, rng.random())))
+                u["r_turnout"] = max(u["r_dem"] + u["r_gop"], int(u["b_turnout"] * f))
+        _LARGE[(seed, n)] = E.frames(units, E.make_cfg())
+    b, f = _LARGE[(seed, n)]
+    return b.copy(deep=True), f.copy(deep=True)
+
+
 def call_run(client, args, name, shared):
     a = args[name]
+    if a.get("large"):
+        if ("baseline_large", a["large"]) not in args:  # built on first use in this history, then shared like the others
+            args[("baseline_large", a["large"])], args[("feed_large", a["large"])] = large_election(args["seed"], a["large"])
+        args = dict(args, baseline=args[("baseline_large", a["large"])], feed=args[("feed_large", a["large"])])
     if "states" in a:
         raw_for = E.raw_config(E.make_cfg(states=a["states"]))
         args = dict(args, raw_config=raw_for)
